@@ -8,6 +8,9 @@ package main
 //   - the eviction-cost formula constants (powers of two, clamp) that decide "contributes positive cost"
 //   - the do-not-disrupt annotation key and the ConsolidationPolicy / condition names the anchored code compares with
 //   - the call order inside ValidateNodeDisruptable / ValidatePodsDisruptable / NewCandidate / the ShouldDisrupt filters
+//   - the control flow of the nodeclaim.disruption controller around its sub-reconcilers: which ones `runReconcilers`
+//     runs (in order), whether its loop can stop early, and whether `Reconcile` can return between running them and
+//     persisting the result
 
 import (
 	"fmt"
@@ -74,7 +77,119 @@ func init() {
 			[]string{"IsActive", "IsDoNotDisruptActive"})
 		g.callSeq(c07Group, "pkg/controllers/nodeclaim/disruption", "Consolidation.Reconcile", "consolidatableCalls",
 			[]string{"Clear", "IsUnderConsolidateAfter", "SetTrue"})
+		c07SubReconcilers(g)
 	})
+}
+
+// c07SubReconcilers: the control flow of `nodeclaim/disruption.Controller` that decides whether the Consolidation
+// sub-reconciler gets to run (and its result gets persisted) when another step of the same run fails.
+//
+//	subReconcilers              — the receiver fields put into the `reconcilers` slice of runReconcilers, in order
+//	subReconcilerLoopExits      — return / break / continue / goto statements and panic calls inside the loop over them
+//	reconcileReturnsBeforePatch — return statements of Reconcile between the runReconcilers call and the Patch call
+func c07SubReconcilers(g *gen) {
+	const pkg = "pkg/controllers/nodeclaim/disruption"
+	_, fd := g.findFunc(pkg, "Controller.runReconcilers")
+	if fd == nil {
+		return
+	}
+	var subs []string
+	addElem := func(e ast.Expr) {
+		if se, ok := e.(*ast.SelectorExpr); ok {
+			subs = append(subs, se.Sel.Name)
+		} else {
+			g.errf("runReconcilers: sub-reconciler is not a receiver field: %s", exprString(e))
+		}
+	}
+	var loops []*ast.RangeStmt
+	ast.Inspect(fd.Body, func(n ast.Node) bool {
+		switch v := n.(type) {
+		case *ast.AssignStmt:
+			if len(v.Lhs) != 1 || len(v.Rhs) != 1 {
+				return true
+			}
+			if id, ok := v.Lhs[0].(*ast.Ident); !ok || id.Name != "reconcilers" {
+				return true
+			}
+			switch r := v.Rhs[0].(type) {
+			case *ast.CompositeLit:
+				for _, e := range r.Elts {
+					addElem(e)
+				}
+			case *ast.CallExpr:
+				if exprString(r.Fun) == "append" && len(r.Args) >= 1 && exprString(r.Args[0]) == "reconcilers" {
+					for _, e := range r.Args[1:] {
+						addElem(e)
+					}
+				} else {
+					g.errf("runReconcilers: `reconcilers` assigned from %s", exprString(r))
+				}
+			default:
+				g.errf("runReconcilers: `reconcilers` assigned from an unexpected expression")
+			}
+		case *ast.RangeStmt:
+			if exprString(v.X) == "reconcilers" {
+				loops = append(loops, v)
+			}
+		}
+		return true
+	})
+	if len(subs) == 0 || len(loops) != 1 {
+		g.errf("runReconcilers: expected a `reconcilers` slice and exactly one loop over it (found %d elements, %d loops)", len(subs), len(loops))
+		return
+	}
+	exits := 0
+	ast.Inspect(loops[0].Body, func(n ast.Node) bool {
+		switch v := n.(type) {
+		case *ast.FuncLit:
+			return false
+		case *ast.ReturnStmt, *ast.BranchStmt:
+			exits++
+		case *ast.CallExpr:
+			if exprString(v.Fun) == "panic" {
+				exits++
+			}
+		}
+		return true
+	})
+	g.leanStrList(c07Group, fmt.Sprintf("the sub-reconcilers `Controller.runReconcilers` runs (%s), in order", g.pos(fd.Pos())), "subReconcilers", subs)
+	b := g.out(c07Group)
+	fmt.Fprintf(b, "/-- early exits (return / break / continue / goto / panic) inside the loop of `runReconcilers` over the sub-reconcilers (%s): 0 = every sub-reconciler runs whatever the others returned -/\ndef subReconcilerLoopExits : Nat := %d\n\n", g.pos(loops[0].Pos()), exits)
+
+	_, rd := g.findFunc(pkg, "Controller.Reconcile")
+	if rd == nil {
+		return
+	}
+	var runPos, patchPos token.Pos
+	ast.Inspect(rd.Body, func(n ast.Node) bool {
+		if ce, ok := n.(*ast.CallExpr); ok {
+			name := exprString(ce.Fun)
+			if strings.HasSuffix(name, ".runReconcilers") && runPos == 0 {
+				runPos = ce.Pos()
+			}
+			if strings.HasSuffix(name, ".Patch") && patchPos == 0 {
+				patchPos = ce.Pos()
+			}
+		}
+		return true
+	})
+	if runPos == 0 || patchPos == 0 || patchPos < runPos {
+		g.errf("nodeclaim/disruption.Controller.Reconcile: expected a runReconcilers call followed by a Patch call")
+		return
+	}
+	between := 0
+	ast.Inspect(rd.Body, func(n ast.Node) bool {
+		switch v := n.(type) {
+		case *ast.FuncLit:
+			return false
+		case *ast.ReturnStmt:
+			if v.Pos() > runPos && v.Pos() < patchPos {
+				between++
+			}
+		}
+		return true
+	})
+	fmt.Fprintf(b, "/-- return statements of `Controller.Reconcile` between the `runReconcilers` call and the status `Patch` call (%s): 0 = what the sub-reconcilers changed is persisted before their errors are returned -/\ndef reconcileReturnsBeforePatch : Nat := %d\n\n", g.pos(rd.Pos()), between)
 }
 
 func (g *gen) leanStrList(group, doc, lean string, xs []string) {
